@@ -87,6 +87,7 @@ func appendConfirmed(l []ConfirmedViolation, v Violation, nat string) []Confirme
 
 type batchItem struct {
 	Lenient bool           `json:"lenient,omitempty"`
+	Seed    int64          `json:"seed,omitempty"`
 	ID      int            `json:"id"`
 	Harness string         `json:"harness"`
 	Tier    string         `json:"tier"`
@@ -217,14 +218,22 @@ func confirmAndValidate(n *Native, res *HarnessResult, tier string, seed int64) 
 		nUns = 200
 	}
 	unsFrom := id
+	// per unsupported path: one completion with default values and several pseudo-random completions
+	const completions = 8
 	for k := 0; k < nUns; k++ {
-		items = append(items, batchItem{ID: id, Harness: res.Spec.Name, Tier: tier, Bounds: res.Bounds, Witness: res.Unsupported[k].Witness, Lenient: true})
-		id++
+		for c := 0; c < completions; c++ {
+			sd := int64(0)
+			if c > 0 {
+				sd = seed*1000003 + int64(k)*131 + int64(c)
+			}
+			items = append(items, batchItem{ID: id, Harness: res.Spec.Name, Tier: tier, Bounds: res.Bounds, Witness: res.Unsupported[k].Witness, Lenient: true, Seed: sd})
+			id++
+		}
 	}
 	got := n.runBatch(items)
 	for k := unsFrom; k < id; k++ {
 		res.ConcolicRuns++
-		u := res.Unsupported[k-unsFrom]
+		u := res.Unsupported[(k-unsFrom)/completions]
 		_, failed, panicked := normTrace(got[k])
 		for _, f := range failed {
 			v := Violation{Label: f, Detail: "found by native replay of a solver-generated input on a path the engine could not encode to the end (" + u.Msg + ")", Witness: u.Witness}
